@@ -1,6 +1,7 @@
 package main
 
 import (
+	"fmt"
 	"go/constant"
 	"go/token"
 	"go/types"
@@ -947,24 +948,128 @@ func isInductionFromNonNeg(v ssa.Value) bool {
 	if !ok {
 		return false
 	}
+	// a value that is the loop variable itself or the loop variable plus something non-negative
+	var atLeastPhi func(e ssa.Value, d int) bool
+	nonNegStep := func(bo *ssa.BinOp, y ssa.Value) bool {
+		if k, ok := constInt(y); ok {
+			return k >= 0
+		}
+		for _, a := range guardsAt(bo.Block()) {
+			if a.L == valName(y) && ((a.Op == ">=" && (a.R == "0" || a.R == "1")) || (a.Op == ">" && (a.R == "0" || a.R == "-1"))) {
+				return true
+			}
+		}
+		// a phi whose every edge is a non-negative constant or a value known non-negative on that edge
+		if ph, isPhi := y.(*ssa.Phi); isPhi {
+			implies := func(a Atom, name string) bool {
+				if a.L != name {
+					return false
+				}
+				switch a.Op {
+				case ">=":
+					return a.R == "0" || a.R == "1"
+				case ">":
+					return a.R == "0" || a.R == "1" || a.R == "-1"
+				}
+				return false
+			}
+			all := len(ph.Edges) > 0
+			for i, e := range ph.Edges {
+				if kk, isKK := constInt(e); isKK && kk >= 0 {
+					continue
+				}
+				okEdge := false
+				pred := ph.Block().Preds[i]
+				for _, a := range guardsAt(pred) {
+					if implies(a, valName(e)) {
+						okEdge = true
+					}
+				}
+				if !okEdge && len(pred.Instrs) > 0 {
+					if iff, isIf := pred.Instrs[len(pred.Instrs)-1].(*ssa.If); isIf {
+						for _, g := range expandCond(iff.Cond, pred.Succs[0] == ph.Block(), 0) {
+							if at, okA := condAtom(g.Cond, g.Positive); okA && implies(at.canon(), valName(e)) {
+								okEdge = true
+							}
+						}
+					}
+				}
+				if !okEdge {
+					all = false
+				}
+			}
+			if all {
+				return true
+			}
+		}
+		// w - 1 where w is known to be at least 1, or a phi of such values and positive constants
+		if sub, ok := y.(*ssa.BinOp); ok && sub.Op == token.SUB {
+			if k, isK := constInt(sub.Y); isK && k <= 1 {
+				if ph, isPhi := sub.X.(*ssa.Phi); isPhi {
+					all := true
+					for i, e := range ph.Edges {
+						if kk, isKK := constInt(e); isKK && kk >= k {
+							continue
+						}
+						okEdge := false
+						for _, a := range guardsAt(ph.Block().Preds[i]) {
+							if a.L == valName(e) && ((a.Op == ">=" && a.R == "1") || (a.Op == ">" && a.R == "0")) {
+								okEdge = true
+							}
+						}
+						// the edge may come straight from the test `e < 1` (false edge)
+						pred := ph.Block().Preds[i]
+						if !okEdge && len(pred.Instrs) > 0 {
+							if iff, isIf := pred.Instrs[len(pred.Instrs)-1].(*ssa.If); isIf {
+								if at, okA := condAtom(iff.Cond, pred.Succs[0] == ph.Block()); okA {
+									a := at.canon()
+									if a.L == valName(e) && ((a.Op == ">=" && a.R == "1") || (a.Op == ">" && a.R == "0")) {
+										okEdge = true
+									}
+								}
+							}
+						}
+						if !okEdge {
+							all = false
+						}
+					}
+					return all
+				}
+			}
+		}
+		return false
+	}
+	atLeastPhi = func(e ssa.Value, d int) bool {
+		if d > 5 {
+			return false
+		}
+		if e == ssa.Value(phi) {
+			return true
+		}
+		switch x := e.(type) {
+		case *ssa.BinOp:
+			if x.Op == token.ADD {
+				return (atLeastPhi(x.X, d+1) && nonNegStep(x, x.Y)) || (atLeastPhi(x.Y, d+1) && nonNegStep(x, x.X))
+			}
+		case *ssa.Phi:
+			for _, e2 := range x.Edges {
+				if !atLeastPhi(e2, d+1) {
+					return false
+				}
+			}
+			return len(x.Edges) > 0
+		}
+		return false
+	}
 	hasInit, hasStep := false, false
 	for _, e := range phi.Edges {
 		if k, ok := constInt(e); ok && k >= 0 {
 			hasInit = true
 			continue
 		}
-		if bo, ok := e.(*ssa.BinOp); ok && bo.Op == token.ADD {
-			if bo.X == ssa.Value(phi) {
-				if k, ok := constInt(bo.Y); ok && k > 0 {
-					hasStep = true
-					continue
-				}
-			}
-			// x += width - 1 style: (x + (w-1)) + 1 — accept additions of the phi itself plus anything, then +1
-			if inner, ok := bo.X.(*ssa.BinOp); ok && inner.Op == token.ADD && inner.X == ssa.Value(phi) {
-				hasStep = true
-				continue
-			}
+		if e != ssa.Value(phi) && atLeastPhi(e, 0) {
+			hasStep = true
+			continue
 		}
 		return false
 	}
@@ -1012,4 +1117,154 @@ func resultOf(r *ssa.Return, i int) ssa.Value {
 		return last
 	}
 	return v
+}
+
+// loopStepLowerBound: for a loop variable (phi in header h of the loop body), a lower bound of
+// (value on the back edge) - (value of the phi), over every way round the loop.  Bounds of the addends
+// come from constants, from guards that hold where the addition happens, and edge by edge for phis.
+func loopStepLowerBound(phi *ssa.Phi, h *ssa.BasicBlock, body map[*ssa.BasicBlock]bool) (int64, bool) {
+	const negInf = int64(-1 << 40)
+	boundFromAtoms := func(as []Atom, name string) int64 {
+		best := negInf
+		for _, a := range as {
+			if a.L != name {
+				continue
+			}
+			var k int64
+			if _, err := fmt.Sscanf(a.R, "%d", &k); err != nil {
+				continue
+			}
+			switch a.Op {
+			case ">=":
+				if k > best {
+					best = k
+				}
+			case ">":
+				if k+1 > best {
+					best = k + 1
+				}
+			case "==":
+				if k > best {
+					best = k
+				}
+			}
+		}
+		return best
+	}
+	var lbVal func(v ssa.Value, at *ssa.BasicBlock, d int) int64
+	lbVal = func(v ssa.Value, at *ssa.BasicBlock, d int) int64 {
+		if d > 6 {
+			return negInf
+		}
+		if k, ok := constInt(v); ok {
+			return k
+		}
+		best := boundFromAtoms(guardsAt(at), valName(v))
+		switch x := v.(type) {
+		case *ssa.BinOp:
+			switch x.Op {
+			case token.SUB:
+				if k, ok := constInt(x.Y); ok {
+					if l := lbVal(x.X, at, d+1); l > negInf && l-k > best {
+						best = l - k
+					}
+				}
+			case token.ADD:
+				l1, l2 := lbVal(x.X, at, d+1), lbVal(x.Y, at, d+1)
+				if l1 > negInf && l2 > negInf && l1+l2 > best {
+					best = l1 + l2
+				}
+			}
+		case *ssa.Phi:
+			if x == phi {
+				break
+			}
+			worst := int64(1 << 40)
+			for i, e := range x.Edges {
+				pred := x.Block().Preds[i]
+				l := lbVal(e, pred, d+1)
+				// the edge's own condition
+				if len(pred.Instrs) > 0 {
+					if iff, isIf := pred.Instrs[len(pred.Instrs)-1].(*ssa.If); isIf {
+						var as []Atom
+						for _, g := range expandCond(iff.Cond, pred.Succs[0] == x.Block(), 0) {
+							if at2, okA := condAtom(g.Cond, g.Positive); okA {
+								as = append(as, at2.canon())
+							}
+						}
+						if b2 := boundFromAtoms(as, valName(e)); b2 > l {
+							l = b2
+						}
+					}
+				}
+				if l < worst {
+					worst = l
+				}
+			}
+			if len(x.Edges) > 0 && worst > best {
+				best = worst
+			}
+		}
+		return best
+	}
+	// delta(v): lower bound of v - phi
+	var delta func(v ssa.Value, d int) int64
+	delta = func(v ssa.Value, d int) int64 {
+		if d > 8 {
+			return negInf
+		}
+		if v == ssa.Value(phi) {
+			return 0
+		}
+		switch x := v.(type) {
+		case *ssa.BinOp:
+			if x.Op == token.ADD {
+				best := negInf
+				if dx := delta(x.X, d+1); dx > negInf {
+					if l := lbVal(x.Y, x.Block(), 0); l > negInf {
+						best = dx + l
+					}
+				}
+				if dy := delta(x.Y, d+1); dy > negInf {
+					if l := lbVal(x.X, x.Block(), 0); l > negInf && dy+l > best {
+						best = dy + l
+					}
+				}
+				return best
+			}
+			if x.Op == token.SUB {
+				if k, ok := constInt(x.Y); ok {
+					if dx := delta(x.X, d+1); dx > negInf {
+						return dx - k
+					}
+				}
+			}
+		case *ssa.Phi:
+			worst := int64(1 << 40)
+			for _, e := range x.Edges {
+				if l := delta(e, d+1); l < worst {
+					worst = l
+				}
+			}
+			if len(x.Edges) > 0 {
+				return worst
+			}
+		}
+		return negInf
+	}
+	worst := int64(1 << 40)
+	n := 0
+	for i, e := range phi.Edges {
+		if !body[h.Preds[i]] {
+			continue
+		}
+		n++
+		if l := delta(e, 0); l < worst {
+			worst = l
+		}
+	}
+	if n == 0 || worst <= negInf {
+		return 0, false
+	}
+	return worst, true
 }
